@@ -40,7 +40,7 @@ class SchedError(Exception):
 
 
 class Task:
-    __slots__ = ('id', 'pid', 'name', 'thread', 'sem', 'pending', 'pred', 'finished', 'error', 'steps', 'started')
+    __slots__ = ('id', 'pid', 'name', 'thread', 'sem', 'pending', 'pred', 'finished', 'error', 'steps', 'started', 'user_daemon')
 
     def __init__(self, id, pid, name):
         self.id, self.pid, self.name = id, pid, name
@@ -52,6 +52,7 @@ class Task:
         self.error = None
         self.steps = 0
         self.started = False
+        self.user_daemon = True
 
     def enabled(self):
         if self.finished: return False
@@ -103,6 +104,7 @@ class Execution:
         self.livelock = False
         self.result = None       # ('ok', value) | ('exc', exception) of the main body
         self.leftover = 0        # tasks still blocked when the main body had finished and nothing was enabled
+        self.leftover_nondaemon = 0      # ... of which the program created as NON-daemon (they keep the interpreter from exiting)
         self.task_errors = []    # uncaught exceptions in non-main tasks
         self.log = []            # harness events recorded through record()
         self.npids = 1
@@ -194,7 +196,9 @@ class Scheduler:
             enabled = [t for t in self.tasks if t.started and t.enabled()]
             if not enabled:
                 if not main.finished: ex.deadlock = True
-                else: ex.leftover = sum(1 for t in self.tasks if not t.finished)
+                else:
+                    ex.leftover = sum(1 for t in self.tasks if not t.finished)
+                    ex.leftover_nondaemon = sum(1 for t in self.tasks if not t.finished and getattr(t, 'user_daemon', True) is False)
                 break
             order = self.order(enabled)
             if len(order) > 1:
@@ -289,6 +293,7 @@ def _start(self):
     if creator is None or getattr(self, '_vf_task', None) is not None:
         return _orig_start(self)
     t = s.adopt_thread(self, creator.pid, type(self).__name__ + ':' + getattr(getattr(self, '_target', None), '__name__', 'run'))
+    t.user_daemon = bool(self.daemon)
     _orig_start(self)          # returns once the thread has bootstrapped; it then waits for the baton
     t.started = True
 
@@ -492,6 +497,7 @@ class FakeProcess:
             child = pickle.loads(state)         # unpickled inside the child (child's globals are installed)
             child.run()
         t = s.new_task(pid, f'proc{pid}', body)
+        t.user_daemon = bool(self.daemon)
         self._vf = t
         _orig_start(t.thread)
         t.started = True
